@@ -340,6 +340,7 @@ void h_redcrand_sf(void)
 
 /* zzMod against zzDiv (two code paths for the same remainder; no arithmetic reference needed, so wider
  * operands are affordable): catches a defect in either routine's quotient-correction step */
+#ifdef FIX_K
 void h_divmod_eq(void)
 {
 	VP_INPUT();
@@ -353,3 +354,4 @@ void h_divmod_eq(void)
 	VP_ASSERT(wwCmp(r, in.b, k) < 0, "zzDiv remainder < divisor");
 	VP_ASSERT(wwEq(r, r2, k), "zzMod == remainder of zzDiv");
 }
+#endif
